@@ -103,7 +103,7 @@ def check(ctx):
         some_t = None
         for b in body.reachable:
             vs = util.variant_switch(body, dg, b)
-            if vs and vs[3] == res[0][1]["dst"]["l"] and not vs[4]: some_t = vs[1].get(1)
+            if vs and vs[3] == res[0][1]["dst"]["l"] and not vs[4]: some_t = vs[1].get(1, vs[2])
         for (wb, wc) in writes:
             ok = some_t is not None and body.dominates(some_t, wb) and all(body.dominates(wb, pb) for (pb, _) in pubs)
             ctx.ob("R01.1", f"{k}|write-before-publish", ok, body.loc(wb), "the payload write lies on the Some edge of the reservation and dominates the publication (a consumer can never read a slot that is still being written)")
@@ -137,7 +137,7 @@ def check(ctx):
         for b in body.reachable:
             vs = util.variant_switch(body, dg, b)
             if vs and body.locals[vs[3]]["ty"].startswith("std::task::Poll<&"):
-                polls.append((b, vs[1].get(0)))
+                polls.append((b, vs[1].get(0, vs[2])))
         site = f"{body.f['file']}:{body.f['line']}"
         ok = len(setters) == 1 and bool(pubs) and bool(polls)
         if ok:
